@@ -402,6 +402,9 @@ func TestC18(t *testing.T) {
 			os.Mkdir(root, 0o755)
 			for i := 0; i < n; i++ {
 				b := bytes.Repeat([]byte{'n'}, 220)
+				if i%97 == 3 {
+					b = bytes.Repeat([]byte{'m'}, 255-i%2) // the longest names a file system allows (255 and 254 bytes)
+				}
 				copy(b, fmt.Sprintf("%06d-", i))
 				var err error
 				switch i % 50 {
@@ -514,9 +517,22 @@ func TestC18(t *testing.T) {
 		os.WriteFile(filepath.Join(dir, "empty"), nil, 0o644)
 		os.Symlink("file", filepath.Join(dir, "lnk"))
 		os.Symlink("nowhere/at/all", filepath.Join(dir, "dangling"))
+		// symbolic links whose target text is as long as the file system allows (PATH_MAX-1) and a bit shorter
+		os.Mkdir(filepath.Join(dir, "longlinks"), 0o755)
+		longOK := 0
+		for _, tl := range []int{4095, 4094, 1024, 255} {
+			tgt := strings.Repeat("t/", tl/2)
+			if len(tgt) < tl {
+				tgt += "x"
+			}
+			if os.Symlink(tgt[:tl], filepath.Join(dir, "longlinks", fmt.Sprintf("l%d", tl))) == nil {
+				longOK++
+			}
+		}
+		c.Count("long_symlink_targets", int64(longOK))
 		os.Mkdir(filepath.Join(dir, "emptydir"), 0o755)
 		syscall.Mkfifo(filepath.Join(dir, "fifo"), 0o644)
-		for _, n := range []string{"file", "empty", "lnk", "dangling", "emptydir"} {
+		for _, n := range []string{"file", "empty", "lnk", "dangling", "emptydir", "longlinks"} {
 			st := store.New()
 			l, _, err := builder.BuildUnixFSRecursive(filepath.Join(dir, n), st.LinkSystem(false))
 			if err != nil {
